@@ -197,6 +197,24 @@ theorem omit_spec (o : FieldOpts) (omitZeroStructFields omitEmptyLegacy zero leg
   cases o.omitzero <;> cases o.omitempty <;> cases omitZeroStructFields <;> cases omitEmptyLegacy <;>
     cases zero <;> cases legacyEmpty <;> cases jsonEmpty <;> simp
 
+/-- The zero test behind `omitzero`: the type's `IsZero` method when the field's static type (or its pointer) has
+one — with nil interfaces, nil pointers and interfaces holding nil pointers counting as zero — and the zero Go
+value otherwise. -/
+theorem zero_spec (k : ZeroKind) (isNil elemNilPtr methodZero goZero : Bool) :
+    fieldIsZero k isNil elemNilPtr methodZero goZero = true ↔
+      (k = .none ∧ goZero = true) ∨
+      (k ≠ .none ∧ (methodZero = true ∨ (k = .iface ∧ (isNil = true ∨ elemNilPtr = true)) ∨ (k = .ptr ∧ isNil = true))) := by
+  cases k <;> cases isNil <;> cases elemNilPtr <;> cases methodZero <;> cases goZero <;> simp [fieldIsZero]
+
+/-- `OmitZeroStructFields` is equivalent to tagging the field `omitzero`: same zero test (method included),
+same decision, for every kind of field and every value. -/
+theorem omitZeroStructFields_equiv (o : FieldOpts) (omitEmptyLegacy : Bool) (k : ZeroKind)
+    (isNil elemNilPtr methodZero goZero legacyEmpty jsonEmpty : Bool) :
+    omittedZ o true omitEmptyLegacy k isNil elemNilPtr methodZero goZero legacyEmpty jsonEmpty =
+    omittedZ { o with omitzero := true } false omitEmptyLegacy k isNil elemNilPtr methodZero goZero legacyEmpty jsonEmpty := by
+  unfold omittedZ omitted
+  cases o.omitzero <;> simp
+
 /-- The fuel of the `NeedEscape` loop model (number of bytes) suffices: any larger fuel gives the same answer. -/
 theorem needEscape_fuel_suffices (fuel : Nat) (b : Bytes) (h : b.length ≤ fuel) : needEscapeAux fuel b = needEscape b :=
   needEscape_fuel fuel b h
